@@ -442,6 +442,96 @@ def r6_failed_wait(ctx, fam):
     if not n_fail or not n_ok:
         ctx.bad(construct, 'paths', 'connect lacks the failed-wait or the '
                 'success path', where(f))
+    # transport failure: connect_error is reported for every requested
+    # namespace before the error is raised / the retry starts
+    n_tf = 0
+    seen_tf = set()
+    any_report = [False]
+    for p in run.paths:
+        cg = [e for e in p.events if e.kind == 'caught' and
+              'ConnectionError' in U(e.expr)]
+        if not cg:
+            continue
+        n_tf += 1
+        trig = [t for t in trigger_calls(p, 'connect_error')
+                if t.idx > cg[0].idx]
+        its = [e for e in p.events if e.kind == 'iter' and e.idx > cg[0].idx
+               and U(run.expand(e.expr)) == 'self.connection_namespaces']
+        if its and not trig:
+            continue    # zero-iteration path of the reporting loop
+        any_report[0] = any_report[0] or bool(trig)
+        ok = bool(trig)
+        for t in trig:
+            lv = run.sym_of(t.expr.args[1]) if len(t.expr.args) > 1 else None
+            ok = ok and lv is not None and lv['kind'] == 'loopvar' and \
+                U(lv['expr']) == 'self.connection_namespaces'
+        if p.exit == 'cut':
+            continue
+        if ('rep', ok) not in seen_tf:
+            seen_tf.add(('rep', ok))
+            ctx.check(ok, construct, 'transport failure: connect_error is '
+                      'reported for each requested namespace',
+                      key='transport-failure-report', reason='after the '
+                      'transport failed connect_error is triggered as %s' % [
+                          U(t.expr)[:60] for t in trig], where=where(f))
+        retry = None
+        for c in p.conds:
+            if c.at >= cg[0].idx and U(c.atom) == 'retry':
+                retry = c.pol
+        hr = [e for e in p.calls('_handle_reconnect') if e.idx > cg[0].idx]
+        if retry:
+            good = len(hr) == 1
+            stc = [c for c in p.conds if c.at > hr[0].idx and
+                   U(run.expand(c.atom)) == "self.eio.state == 'connected'"] \
+                if hr else []
+            if p.normal:
+                good = good and bool(stc) and stc[-1].pol
+            elif p.exit == 'raise':
+                good = good and bool(stc) and not stc[-1].pol
+            if ('retry', good, p.exit) in seen_tf:
+                continue
+            seen_tf.add(('retry', good, p.exit))
+            ctx.check(good, construct, 'retry=True: the reconnection logic '
+                      'runs once; success iff the transport is connected '
+                      'afterwards, ConnectionError otherwise',
+                      key='retry-path', reason='retry path: %d '
+                      '_handle_reconnect call(s), exit %s under %s' % (
+                          len(hr), p.exit, [('' if c.pol else 'not ') +
+                                            U(run.expand(c.atom))
+                                            for c in stc]), where=where(f))
+        elif retry is False:
+            if ('noretry', not hr and p.exit == 'raise') in seen_tf:
+                continue
+            seen_tf.add(('noretry', not hr and p.exit == 'raise'))
+            ctx.check(not hr and p.exit == 'raise', construct, 'retry=False: '
+                      'ConnectionError is raised, no reconnection',
+                      key='no-retry-path', where=where(f))
+    if not n_tf:
+        ctx.bad(construct, 'no-transport-failure-path', 'connect() does not '
+                'handle a failing transport', where(f))
+    elif not any_report[0]:
+        ctx.bad(construct, 'transport-failure-unreported', 'a failing '
+                'transport is not reported to the connect_error handlers',
+                where(f))
+    # the wait loop consumes each wake-up: the connect event is cleared after
+    # every successful wait (otherwise the next wait returns at once, the
+    # loop spins and the timeout that ends a refused connect never fires)
+    loops = [n_ for n_ in walk_own(f.node) if isinstance(n_, ast.While)]
+    for lp in loops:
+        waits = [c for c in ast.walk(lp) if isinstance(c, ast.Call) and
+                 isinstance(c.func, ast.Attribute) and
+                 c.func.attr == 'wait' and '_connect_event' in U(c)]
+        if not waits:
+            continue
+        clears = [c for c in ast.walk(lp) if isinstance(c, ast.Call) and
+                  U(c.func) == 'self._connect_event.clear']
+        ctx.check(bool(clears), construct, 'every wake-up of the namespace '
+                  'wait is consumed (event cleared inside the loop)',
+                  key='wait-consumed', reason='the wait loop never clears '
+                  '_connect_event: after the first answer every wait '
+                  'returns immediately, the loop spins and a refused '
+                  'namespace never ends in ConnectionError',
+                  where=where(f, lp))
     # already connected
     ctx.check(any(p.exit == 'raise' and 'ConnectionError' in U(p.value) and
                   any(c.pol and U(c.atom) == 'self.connected'
@@ -514,6 +604,15 @@ def r8_lowering_final(ctx, fam):
             if (gtxt, bool(closes)) in seen:
                 continue
             seen.add((gtxt, bool(closes)))
+            for cl in closes:
+                ab = {k.arg: k.value for k in cl.expr.keywords}.get('abort')
+                ctx.check(is_const(ab, True), construct, 'the transport is '
+                          'closed with abort=True (the handler runs on the '
+                          'transport\'s own read loop, which a non-aborting '
+                          'close would wait for)', key='close-abort',
+                          reason='eio.disconnect(abort=%s) from a packet '
+                          'handler: the close joins the read loop it is '
+                          'running on' % txt(ab), where=where(f, cl.node))
             ctx.check(bool(closes), construct, '`connected` lowered when %s: '
                       'the transport is closed on the same path' % gtxt,
                       key='flag lowered with the transport left open when '
